@@ -201,15 +201,12 @@ def wiring(ctx, rule="R06.3", only_flag=False):
            consequence="terminal sites and terminal boundary edges disagree")
     # R06.4
     ft = repo.func(DEVICE, "Device.terminal_info")
-    tcalls = [n for n in own_nodes(ft.node) if isinstance(n, ast.Call) and isinstance(n.func, ast.Name)
-              and n.func.id == "TerminalInfo"]
-    if len(tcalls) != 1:
-        raise AnalysisError("Device.terminal_info no longer builds one TerminalInfo per terminal")
-    tc = tcalls[0]
-    site_arg = tc.args[1] if len(tc.args) > 1 else {k.arg: k.value for k in tc.keywords}.get("site_indices")
-    from .c01 import _loop_var_over
-    tv = _loop_var_over(ft.node, "self.terminals")
-    txt = rename_id(expanded_text(ft.node, site_arg, stop=(tv,)), tv, "T").replace(" ", "")
+    from ..tables import terminal_info_fields, symbolic_text
+    fields = terminal_info_fields(repo)          # Device.terminal_info followed for one terminal T
+    if "site_indices" not in fields:
+        raise AnalysisError(f"TerminalInfo no longer has site_indices ({sorted(fields)})")
+    tc = ft.node
+    txt = symbolic_text(fields["site_indices"])
     ok = txt in (
         "np.intersect1d(T.contains_points(self.points,index=True),self.mesh.boundary_indices)",
         "np.intersect1d(self.mesh.boundary_indices,T.contains_points(self.points,index=True))")
